@@ -40,7 +40,8 @@ def seeds():
                 tag = "caught, no input" if any("no-failing-input-found" in l for l in v["lines"]) else "caught with failing input"
             res.append("%s: %s" % (k, tag))
         clean = lambda t: " ".join(str(t).split()).replace("|", "/")
-        rows.append("| %s | %s | %s | %s |" % (s, clean(m.get("summary", ""))[:260], clean(m.get("needs_to_manifest", ""))[:200], "; ".join(res)))
+        verdict = (" — " + clean(m["coordinator_verdict"])[:400]) if m.get("coordinator_verdict") else ""
+        rows.append("| %s | %s | %s | %s%s |" % (s, clean(m.get("summary", ""))[:260], clean(m.get("needs_to_manifest", ""))[:200], "; ".join(res), verdict))
     return "\n".join(rows)
 
 def reverts():
